@@ -21,9 +21,11 @@ model M
   input Real u(fixed=false, min=-5.0, max=5.0);
   input Real c(fixed=true);
   output Real y;
+  output Real z;
 equation
   der(x) = (u + c) / 3600.0;
   y = 2 * x;
+  z = c - x;
 end M;
 """
 
@@ -41,9 +43,9 @@ equation
 end S;
 """
 
-IDS = P11.Ids(["c", "u", "u_Max", "u_Min", "x", "y", "x_out"],
+IDS = P11.Ids(["c", "u", "u_Max", "u_Min", "x", "y", "x_out", "z"],
               {"c": ("In", "C", []), "u": ("Ctl", "U", ["q1"]), "u_Max": ("Ctl", "U_Max", []), "u_Min": ("Ctl", "U_Min", []),
-               "x": ("St", "X", []), "y": ("Out", "Y", ["q2", "q1"]), "x_out": ("Out", "X", [])})
+               "x": ("St", "X", []), "y": ("Out", "Y", ["q2", "q1"]), "x_out": ("Out", "X", []), "z": ("Out", "Z", [])})
 
 
 def isnan(x):
@@ -148,6 +150,10 @@ def gen_instance(rng, sim=False):
     return {"dts": dts, "d": d, "k0": k0, "E": E, "members": members, "u_Max": umax}
 
 
+def wire(vs):
+    return [fr(float(x)) for x in vs]
+
+
 def fmt(x):
     return "nan" if isnan(x) else repr(float(x))
 
@@ -191,7 +197,12 @@ def make_csv_folder(root, inst, sim=False):
     return inp, out
 
 
-def make_pi_folder(root, inst, sim=False):
+def f32(v):
+    """the value a float32 record holds"""
+    return v if isnan(v) else float(np.float32(v))
+
+
+def make_pi_folder(root, inst, sim=False, binary=False):
     inp, out = os.path.join(root, "in"), os.path.join(root, "out")
     os.makedirs(inp)
     os.makedirs(out)
@@ -200,16 +211,19 @@ def make_pi_folder(root, inst, sim=False):
     with open(os.path.join(inp, "rtcParameterConfig.xml"), "w") as f:
         f.write('<pi:parameters xmlns:pi="http://www.wldelft.nl/fews/PI" version="1.5"></pi:parameters>')
     dts, k0, E = inst["dts"], inst["k0"], inst["E"]
-    recs = []
+    recs, stream = [], []
     for m in range(E):
         for nm in series_names(inst, sim):
             if nm == "u_Max" and m > 0:
                 continue
             src = inst["u_Max"] if nm == "u_Max" else inst["members"][m][nm]
+            evs = [fr(-999.0) if isnan(v) else fr(float(v)) for v in src]
+            # binary PI: the XML holds the headers only, the .bin the float32 records of the series in header order
             recs.append({"hdr": {"var": IDS.rank[nm], "member": m if E > 1 else None, "step": inst["d"], "start": dts[0],
                                  "stop": dts[-1], "forecast": dts[k0], "miss": fr(-999.0), "unit": "m"},
-                         "evt": list(dts), "evs": [fr(-999.0) if isnan(v) else fr(float(v)) for v in src]})
-    P11.write_file(inp, "timeseries_import", {"tz": fr(0.0), "recs": recs, "bin": None}, IDS)
+                         "evt": [] if binary else list(dts), "evs": [] if binary else evs})
+            stream += evs
+    P11.write_file(inp, "timeseries_import", {"tz": fr(0.0), "recs": recs, "bin": stream if binary else None}, IDS)
     return inp, out
 
 
@@ -297,6 +311,9 @@ def opt_classes():
     class Pi(Base, PIMixin, ModelicaMixin, CollocatedIntegratedOptimizationProblem):
         pass
 
+    class PiBin(Pi):
+        pi_binary_timeseries = True
+
     class Nc(Base, NetCDFMixin, ModelicaMixin, CollocatedIntegratedOptimizationProblem):
         def netcdf_id_to_variable(self, station_id, parameter):
             return parameter
@@ -304,7 +321,7 @@ def opt_classes():
         def netcdf_id_from_variable(self, variable_name):
             return ("loc", variable_name)
 
-    return Csv, CsvEns, Pi, Nc
+    return Csv, CsvEns, Pi, PiBin, Nc
 
 
 def observe(p, E):
@@ -330,15 +347,60 @@ def read_csv_export(out, E):
     return res
 
 
-def read_pi_export(inp, out, E):
+def read_pi_export(inp, out, E, binary=False):
     import rtctools.data.pi as pi
     import rtctools.data.rtc as rtc
 
-    r = pi.Timeseries(rtc.DataConfig(inp), out, "timeseries_export", binary=False)
+    r = pi.Timeseries(rtc.DataConfig(inp), out, "timeseries_export", binary=binary)
     res = []
     for m in range(E):
         res.append(([sec(t) for t in r.times], {k: [float(x) for x in v] for k, v in r.items(m)}))
     return res, sec(r.forecast_datetime), r.ensemble_size
+
+
+def decode_pi_export(out, E, binary):
+    """the PI export decoded WITHOUT rtctools' reader, the way the format prescribes: the <series> headers of the
+    .xml in document order; XML flavour: the <event>s of each series; binary flavour: the float32 records of the
+    .bin in the same order as the headers, one block of (endDate - startDate) / timeStep + 1 records per series.
+    -> ([(stamps, {variable: values}) per member], [problems])"""
+    f = P11.parse_xml_file(os.path.join(out, "timeseries_export.xml"), IDS,
+                           os.path.join(out, "timeseries_export.bin") if binary else None)
+    floats = None if f["bin"] is None else [float(unfr(x)) for x in f["bin"]]
+    res, problems, pos = [{} for _ in range(E)], [], 0
+    if binary and floats is None:
+        return None, ["binary export without .bin file"]
+    for r in f["recs"]:
+        h = r["hdr"]
+        name, m = IDS.names[h["var"]], (h["member"] or 0)
+        if binary:
+            if r["evt"]:
+                problems.append("events in the XML of a binary export")
+            if h["step"] is None:
+                problems.append("binary series without a time step")
+                continue
+            n = (h["stop"] - h["start"]) // h["step"] + 1
+            stamps = [h["start"] + i * h["step"] for i in range(n)]
+            vals = floats[pos:pos + n]
+            pos += n
+        else:
+            stamps, vals = list(r["evt"]), [float(unfr(x)) for x in r["evs"]]
+        miss = float(unfr(h["miss"]))
+        vals = [NAN if v == miss else v for v in vals]
+        if (h["member"] is None) != (E == 1):
+            problems.append("ensembleMemberIndex present/absent against the ensemble size")
+        if m >= E or name in res[m]:
+            problems.append("series (%s, member %s) listed twice / for a member that does not exist" % (name, m))
+            continue
+        res[m][name] = (stamps, vals)
+    if binary and pos != len(floats):
+        problems.append("the .bin holds %d records, the headers announce %d" % (len(floats), pos))
+    out_ = []
+    for m in range(E):
+        sts = [st for st, _ in res[m].values()]
+        if any(st != sts[0] for st in sts):
+            problems.append("series of one member on different stamps")
+        out_.append((sts[0] if sts else [], {k: v for k, (_, v) in res[m].items()}))
+    return out_, problems
 
 
 def read_nc_export(out, E):
@@ -377,7 +439,7 @@ def check_export(c, case, backend, obs, exported, tol, what_extra=""):
 
 def stream_backends(c, N, tmp):
     rng = c.rng
-    Csv, CsvEns, Pi, Nc = opt_classes()
+    Csv, CsvEns, Pi, PiBin, Nc = opt_classes()
     mo = os.path.join(tmp, "mo")
     os.makedirs(mo)
     with open(os.path.join(mo, "M.mo"), "w") as f:
@@ -392,9 +454,11 @@ def stream_backends(c, N, tmp):
         k0, E, dts = inst["k0"], inst["E"], inst["dts"]
         case = {"stream": "backends", "instance": inst}
         runs = {}
-        for backend in ("pi", "csv", "nc"):
+        for backend in ("pi", "pib", "csv", "nc"):
             if backend == "nc" and k0 > 0:
                 continue  # NetCDFMixin with a moved reference datetime: see the probe
+            if backend == "pib" and inst["d"] is None:
+                continue  # the binary PI format has no place for the stamps of a non-equidistant series
             root = os.path.join(tmp, "b%d_%s" % (i, backend))
             os.makedirs(root)
 
@@ -402,16 +466,16 @@ def stream_backends(c, N, tmp):
                 if backend == "csv":
                     inp, out = make_csv_folder(root, inst)
                     cls = CsvEns if E > 1 else Csv
-                elif backend == "pi":
-                    inp, out = make_pi_folder(root, inst)
-                    cls = Pi
+                elif backend in ("pi", "pib"):
+                    inp, out = make_pi_folder(root, inst, binary=(backend == "pib"))
+                    cls = PiBin if backend == "pib" else Pi
                 else:
                     inp, out = make_nc_folder(root, inst)
                     cls = Nc
                 p = cls(model_name="M", model_folder=mo, input_folder=inp, output_folder=out)
                 if inst["d"] is None:
                     p.csv_equidistant = False
-                if backend != "pi":
+                if backend not in ("pi", "pib"):
                     p.t0_index = k0
                 with quiet_fd():
                     ok = p.optimize()
@@ -419,10 +483,11 @@ def stream_backends(c, N, tmp):
                 obs["success"] = bool(ok)
                 if backend == "csv":
                     exported = read_csv_export(out, E)
-                elif backend == "pi":
-                    exported, fc, es = read_pi_export(inp, out, E)
+                elif backend in ("pi", "pib"):
+                    exported, fc, es = read_pi_export(inp, out, E, binary=(backend == "pib"))
                     obs["export_forecast"] = fc
                     obs["export_E"] = es
+                    obs["decoded"] = decode_pi_export(out, E, backend == "pib")
                 else:
                     exported, es = read_nc_export(out, E)
                     obs["export_E"] = es
@@ -460,21 +525,38 @@ def stream_backends(c, N, tmp):
                 c.fail("%s back-end: the axis is not seconds relative to t0 / the horizon does not start at t0" % backend,
                        case, {k2: obs[k2] for k2 in ("datetimes", "ref", "times")})
                 continue
+            stored = (lambda v: f32(v)) if backend == "pib" else (lambda v: v)  # a binary import holds float32 records
             for m in range(E):
                 ht, hv = obs["hist_x"][m]
-                if ht != [float(t) for t in ts[:k0 + 1]] or not eqv(hv, inst["members"][m]["x"][:k0 + 1]):
+                if ht != [float(t) for t in ts[:k0 + 1]] or not eqv(hv, [stored(v) for v in inst["members"][m]["x"][:k0 + 1]]):
                     c.fail("%s back-end: history of x is not the series up to t0" % backend, case, obs["hist_x"][m])
             # initial condition taken at t0 for every member
             for m in range(E):
                 if abs(obs["results"][m]["x"][0] - inst["members"][m]["x"][k0]) > 1e-6:
                     c.fail("%s back-end: x(t0) of member %d is not the stored value at t0" % (backend, m), case,
                            obs["results"][m]["x"])
-            tol = 6e-7 if backend == "csv" else 0.0
-            if check_export(c, case, backend, obs, exported, tol):
+            # CSV: 6 decimals; binary PI: float32 records
+            tol = 6e-7 if backend == "csv" else (2e-7 if backend == "pib" else 0.0)
+            ok_exp = check_export(c, case, backend, obs, exported, tol)
+            if backend in ("pi", "pib"):
+                # the same statement on the file decoded independently of rtctools' reader (headers in document
+                # order; binary: float32 records in the same order): every (variable, member) series holds the
+                # results of that member at the stamps from t0 on
+                dec, problems = obs["decoded"]
+                c.hit("backends/%s export decoded independently, E=%d, %d series" % (
+                    backend, E, sum(len(cols) for _, cols in (dec or []))))
+                if problems:
+                    c.fail("%s export: the file is not a well-formed PI series file" % backend, case, problems)
+                    ok_exp = False
+                elif not check_export(c, case, backend, obs, dec, tol,
+                                      " (file decoded by hand: headers in document order%s)" % (
+                                          ", float32 records in the same order" if backend == "pib" else "")):
+                    ok_exp = False
+            if ok_exp:
                 good[backend] = (obs, exported)
-            if backend == "pi" and (obs["export_forecast"] != dts[k0]):
-                c.fail("pi export: forecast date is not t0", case, obs["export_forecast"])
-            if backend in ("pi", "nc") and obs["export_E"] != E:
+            if backend in ("pi", "pib") and (obs["export_forecast"] != dts[k0]):
+                c.fail("%s export: forecast date is not t0" % backend, case, obs["export_forecast"])
+            if backend in ("pi", "pib", "nc") and obs["export_E"] != E:
                 c.fail("%s export: ensemble size differs" % backend, case, obs["export_E"])
             # correspondence with the Lean model: stamps of the export rows
             if outs is not None:
@@ -490,7 +572,8 @@ def stream_backends(c, N, tmp):
                 if a < b:
                     for m in range(E):
                         for var in good[a][0]["outputs"]:
-                            if not eqv(good[a][1][m][1][var], good[b][1][m][1][var], 2e-6):
+                            # (a binary PI run starts from float32 inputs and exports float32 records)
+                            if not eqv(good[a][1][m][1][var], good[b][1][m][1][var], 5e-6 if "pib" in (a, b) else 2e-6):
                                 c.fail("exports of the %s and %s back-ends differ" % (a, b), case,
                                        {"var": var, a: good[a][1][m][1][var], b: good[b][1][m][1][var]})
 
@@ -511,10 +594,22 @@ def sim_classes():
             o["library_folders"] = []
             return o
 
-    class SCsv(Base, CSVMixin, SimulationProblem):
+    class Rec:
+        """records every value set on the model through the public `set_var`, with the model time at that moment"""
+
+        def set_var(self, name, value):
+            log = self.__dict__.setdefault("_c12_set_log", [])
+            try:
+                now = float(self.get_current_time())
+            except Exception:
+                now = None
+            log.append((name, float(value), now))
+            return super().set_var(name, value)
+
+    class SCsv(Rec, Base, CSVMixin, SimulationProblem):
         pass
 
-    class SPi(Base, PIMixin, SimulationProblem):
+    class SPi(Rec, Base, PIMixin, SimulationProblem):
         pass
 
     return SCsv, SPi
@@ -528,6 +623,7 @@ def stream_simulation(c, N, tmp):
     with open(os.path.join(mo, "S.mo"), "w") as f:
         f.write(MO_SIM)
     c.programs += 1
+    sim_batch = []
     for i in range(N):
         if TIMEOUTS[0] >= 3:
             c.hit("simulation/skipped after repeated timeouts")
@@ -592,6 +688,7 @@ def stream_simulation(c, N, tmp):
                         p.update(mult * d)
                     p.post()
             er = p.extract_results()
+            seen["set_log"] = list(p.__dict__.get("_c12_set_log", []))
             res = {k: [float(x) for x in er[k]] for k in ("y", "x_out")}
             times = [float(t) for t in p.times()]
             if backend == "csv":
@@ -625,6 +722,21 @@ def stream_simulation(c, N, tmp):
         if stamps != [dts[i] for i in reached]:
             c.fail("simulation %s export: stamps are not the import stamps from t0 on" % backend, case, stamps)
             continue
+        # feed, observed directly: the input values set on the model (public set_var) before solve j are the values
+        # stored for the stamp at which output row j is recorded -- also at t0, where the result does not show it
+        for nm in ("u", "c"):
+            got = [v for (name, v, _t) in seen.get("set_log", []) if name == nm]
+            exp = [s[nm][i] for i in reached if not isnan(s[nm][i])]
+            if len(got) != len(exp) or any(abs(a - b) > 1e-9 for a, b in zip(got, exp)):
+                c.fail("simulation: the input values set on the model before a solve are not the values stored for "
+                       "the stamp of the output row it produces", case, {"input": nm, "set": got, "stored_at_stamps": exp})
+                break
+        if all(dts[j + 1] - dts[j] == d for j in range(len(dts) - 1)):
+            # the Lean feed/record model (Model/C12Io.lean: simRun) on the same axis and the same update(dt) calls
+            sim_batch.append((case, [t - dts[k0] for t in dts],
+                              [-1] * (len(dts) - 1 - k0) if plan is None else [mlt * d for mlt in plan],
+                              [t - dts[k0] for t in stamps], list(reached),
+                              {nm: list(s[nm]) for nm in ("u", "c", "x")}, seen.get("set_log", [])))
         tol = 6e-7 if backend == "csv" else 0.0
         for var in ("y", "x_out"):
             if var not in cols or not eqv(cols[var], res[var], tol):
@@ -644,6 +756,27 @@ def stream_simulation(c, N, tmp):
                 c.fail("simulation: step %d is not driven by the inputs of its own stamp" % j, case,
                        {"x": x, "expected_increment": rhs})
                 break
+    if sim_batch:
+        outs = c.model([{"op": "sim", "ts": ts, "dts": steps, "feeds": [wire(ser[nm]) for nm in ("u", "c", "x")]}
+                        for _, ts, steps, _, _, ser, _ in sim_batch])
+        for k, (case, ts, steps, rel_stamps, reached, ser, log) in enumerate(sim_batch):
+            if outs is None:
+                break
+            mo = outs[k]
+            c.hit("simulation/feed-record model compared")
+            if mo == "raise" or mo["stamps"] != rel_stamps or mo["recorded"] != rel_stamps or mo["fed"] != reached:
+                c.disagree("simulation feed / record (stamps listed, rows fed)", case, mo,
+                           {"exported_stamps": rel_stamps, "rows_reached": reached})
+                continue
+            # what the code really set on the model before each solve (public set_var, recorded with the model
+            # time): the finite value of the fed import row, nothing for a missing one
+            # (the inputs only: SimulationProblem.initialize() sets the states through set_var itself as well)
+            for q, nm in enumerate(("u", "c")):
+                exp = [(float(unfr(v)), float(t)) for v, t in zip(mo["fed_values"][q], mo["fed_time"]) if v != "skip"]
+                got = [(v, t) for (name, v, t) in log if name == nm]
+                c.hit("simulation/values set on the model compared", len(got))
+                if len(exp) != len(got) or any(abs(a[0] - b[0]) > 1e-9 or a[1] != b[1] for a, b in zip(exp, got)):
+                    c.disagree("simulation: values set on the model before each solve (%s)" % nm, case, exp, got)
 
 
 # ---------------------------------------------------------------------------------------------
